@@ -112,7 +112,8 @@ def check(ctx):
             raise MachineryError(str(mm))
         ctx.violation(mm["what"] + f" (parents {mm.get('parent')})", mm)
     for mm in o["f8"]:
-        ctx.known("F8", mm["what"])
+        # F8 (observer is a descendant of the suspended target) was repaired in /repo e26936e: a fixed entry excuses nothing
+        ctx.violation(mm["what"] + f" (parents {mm.get('parent')}; the F8 shape, fixed in e26936e)", mm)
     for b in o["other_thread"]:
         ctx.violation("other thread: " + b, None)
     for b in o["greenback"]:
